@@ -38,12 +38,12 @@ GEN_SPEC = {"imports": ["From God Require Import C01.GenEnv."], "items": [
     {"kind": "func", "file": "lib/breaker/breaker.go", "name": "defaultAcceptable", "as": "default_acceptable"},
 ]}
 COQ_FILES = ["theories/C01/Props.v", "theories/C01/Link.v", "theories/C01/Proofs.v", "theories/C01/Registry.v"]
-QUICK_N = 300
+QUICK_N = 340
 THOROUGH_N = 8000
 SHARD = 100
 RULE = ("breaker histories of 20-140 events over 1-3 registry names through the public Breaker: Begin(kind in Do/DoWithAcceptable/"
         "DoWithFallback/DoWithFallbackAcceptable, for the ...Acceptable variants a caller predicate in {nil-or-acceptable-error, "
-        "REJECTS nil, accepts every error, accepts nothing}, coin) / End(outcome ok 50%, acceptable err 20%, unacceptable err 20%, panic 10%, with "
+        "REJECTS nil, accepts every error, accepts nothing}, coin) / End(outcome ok 50%, acceptable err 20%, unacceptable err 20%, panic(string) / panic(nil) 10%, with "
         "failure phases) interleaved across calls, Allow/Accept/Reject, advances in {0,<250ms,k*250ms-1..+1,2.5s,9.75s,"
         "10s-1,10s,10s+1,>10s}; coins uniform, 0, 2^53-1 and the three 53-bit values around the drop ratio computed by the "
         "generator's own simulation; plus the finite sets: gRPC codes 0..16, sqlx {nil,ErrNoRows,ErrTxDone,Canceled,other} "
@@ -52,10 +52,10 @@ RULE = ("breaker histories of 20-140 events over 1-3 registry names through the 
         "written, WriteHeader+Write+Flush+Write, Write+Flush+Write, Flush only, panic under RecoverHandler) sustained 200 "
         "requests each through one BreakerHandler with WithCodeResponseWriter.Code probed, server UnaryBreakerInterceptor "
         "(inside UnaryCrashInterceptor) and client BreakerInterceptor with every gRPC code 0..16 returned and panic(string|"
-        "error), 200 calls each; sqlx call sites (3 of 7 methods per run, all in thorough: ExecCtx PrepareCtx QueryRow[s][Partial]Ctx TransactCtx x "
-        "{ErrNoRows, ErrTxDone, Canceled, other; MySQL 1062/1000 under NewMySQL's option}) and redis call sites (3 of 7: HGet LPop "
+        "error), 200 calls each; sqlx call sites (all 7: ExecCtx PrepareCtx QueryRow[s][Partial]Ctx TransactCtx x "
+        "{ErrNoRows, ErrTxDone, Canceled, other; MySQL 1062/1000 under NewMySQL's option}) and redis call sites (all 7: HGet LPop "
         "ZScore RPop Get Incr ZRank x {ok, cancelled ctx, redis.Nil, WRONGTYPE}) against miniredis, 200 calls each; server "
-        "StreamBreakerInterceptor like the unary one; 12 mixed streams (thorough 150) of 40-160 calls through the client / server "
+        "StreamBreakerInterceptor like the unary one; 6 fixed (per side: expiring caller deadline x120 after <= 5 cancelled calls; cancelled-only) + 12 random mixed streams (thorough 150) of 40-160 calls through the client / server "
         "unary / server stream interceptor with live, expired-deadline and cancelled caller contexts and panics; "
         "registry stream: 6 cases (thorough 40) x 200 fresh names, G = 2..8 goroutines making "
         "their first use of the name together through Get / Do / DoWithAcceptable with the all-miss interleaving forced "
@@ -122,7 +122,7 @@ def coin(rng, r):
 def pred_ok(kind, o):
     """generator-side copy of Model.acceptable (only used to aim coins)"""
     base, p = kind % 4, kind // 4
-    if o == 3:
+    if o >= 3:
         return False
     if base in (0, 2):
         return o == 0
@@ -157,9 +157,9 @@ def gen_history(rng):
             i = rng.choice(sorted(running))
             n, kind = running.pop(i)
             if bad[n]:
-                o = rng.choice([2, 2, 2, 2, 3, 3, 1, 0])
+                o = rng.choice([2, 2, 2, 2, 3, 4, 1, 0])
             else:
-                o = rng.choice([0, 0, 0, 0, 0, 1, 1, 2, 2, 3])
+                o = rng.choice([0, 0, 0, 0, 0, 1, 1, 2, 2, 3, 4])
             evs.append([1, i, o])
             ok = pred_ok(kind, o)
             sim.mark(n, now, 1 if ok else 0)
@@ -205,13 +205,11 @@ def pred_cases(rng, tier):
     out += [{"kind": "h", "shape": k, "arg": s} for k in (0, 3)
             for s in sorted(set([200, 404, 499, 500, 503] + [rng.randrange(200, 600) for _ in range(4)]))]
     # sqlx call sites (7 methods x error classes through the public breaker of a commonConn) and redis call sites
-    sites = range(7) if tier == "thorough" else sorted(rng.sample(range(7), 3))
-    for site in sites:
+    for site in range(7):
         out += [{"kind": "p", "which": 7, "arg": site * 1000 + cl, "site": site, "cl": cl} for cl in (1, 2, 3, 5)]
     s0 = rng.randrange(7)
     out += [{"kind": "p", "which": 7, "arg": s0 * 1000 + 100 + cl, "site": s0, "cl": cl, "mysql": True} for cl in (8, 9, 3)]
-    sites = range(7) if tier == "thorough" else sorted(rng.sample(range(7), 3))
-    for site in sites:
+    for site in range(7):
         out += [{"kind": "p", "which": 8, "arg": site * 100 + cl, "site": site, "cl": cl} for cl in (0, 3, 4, 5)]
     # RPC breaker interceptors: every gRPC code returned, and panics (string / error)
     for which in (5, 6, 9):
@@ -274,7 +272,12 @@ def gen_mixed(rng, side=None):
 
 def mixed_cases(rng, tier):
     k = {"quick": 12, "search": 12}.get(tier, 150)
-    return [gen_mixed(rng, i % 3) for i in range(k)]
+    fixed = []
+    for side in range(3):
+        # the caller's deadline keeps expiring after a few cancelled calls: must be cut off; cancelled only: never
+        fixed.append({"kind": "m", "side": side, "calls": [[2, 0]] * rng.randint(0, 5) + [[1, 0]] * 120})
+        fixed.append({"kind": "m", "side": side, "calls": [[2, 0]] * 120 + [[0, 0]] * 10 + [[2, 0]] * 20})
+    return fixed + [gen_mixed(rng, i % 3) for i in range(k)]
 
 
 def generate(rng, tier, n):
@@ -339,7 +342,7 @@ def ckind(k):
 
 
 KIND = ["KDo", "KDoWithAcceptable", "KDoWithFallback", "KDoWithFallbackAcceptable"]
-OUT = ["OK", "AcceptableErr", "UnacceptableErr", "Panics"]
+OUT = ["OK", "AcceptableErr", "UnacceptableErr", "Panics", "PanicsNil"]
 
 
 def encode(case, obs):
